@@ -30,14 +30,40 @@ R0 = t.ForwardRef("B0", module=__name__, is_class=True)
 R1 = t.ForwardRef("B1", module=__name__, is_class=True)
 R2 = t.ForwardRef("B2", module=__name__, is_class=True)
 
-# index: 0 itself, 1 NewType, 2 alias, 3 string alias, 4 Final, 5 ForwardRef
+
+
+class Order:
+    class Item:  # a nested class: its qualified name is dotted
+        pass
+
+
+class Item:  # the decoy: a top-level class with the nested class's short name
+    pass
+
+
+N3 = t.NewType("N3", Order.Item)
+type A3 = Order.Item
+type S3 = "Order.Item"
+F3 = t.Final[Order.Item]
+R3 = t.ForwardRef("Order.Item", module=__name__, is_class=True)
+DECOY_REF = t.ForwardRef("Item", module=__name__, is_class=True)
+
+
+def _extras(B, N, A, S, i):
+    """Two-layer keys: 6 NewType over alias, 7 NewType over string alias, 8 NewType of NewType, 9 alias of NewType,
+    10 Final of NewType."""
+    return [t.NewType(f"NA{i}", A), t.NewType(f"NS{i}", S), t.NewType(f"NN{i}", N), t.TypeAliasType(f"AN{i}", N), t.Final[N]]
+
+
+# index: 0 itself, 1 NewType, 2 alias, 3 string alias, 4 Final, 5 ForwardRef, 6.. two-layer keys (lookup only)
 FAMILIES = [
-    [B0, N0, A0, S0, F0, R0],
-    [B1, N1, A1, S1, F1, R1],
-    [B2, N2, A2, S2, F2, R2],
+    [B0, N0, A0, S0, F0, R0] + _extras(B0, N0, A0, S0, 0),
+    [B1, N1, A1, S1, F1, R1] + _extras(B1, N1, A1, S1, 1),
+    [B2, N2, A2, S2, F2, R2] + _extras(B2, N2, A2, S2, 2),
+    [Order.Item, N3, A3, S3, F3, R3] + _extras(Order.Item, N3, A3, S3, 3),
 ]
 # The reference semantics, written down here and nowhere derived from typelib:
 # what each key unwraps to (index within its family; None = it is its own unwrapped form / not unwrappable)
-UNWRAPS_TO = {0: None, 1: 0, 2: 0, 3: 5, 4: 0, 5: None}
+UNWRAPS_TO = {0: None, 1: 0, 2: 0, 3: 5, 4: 0, 5: None, 6: 0, 7: 5, 8: 0, 9: 0, 10: 0}
 # which family member is "a forward reference naming" the key (only the class itself is named by R)
-NAMED_BY = {0: 5, 1: None, 2: None, 3: None, 4: None, 5: None}
+NAMED_BY = {0: 5, 1: None, 2: None, 3: None, 4: None, 5: None, 6: None, 7: None, 8: None, 9: None, 10: None}
